@@ -23,7 +23,9 @@ def _node_identity(node: HyperNode) -> str:
     """Definition hash qualified by what the cached outputs are stored under."""
     targets = getattr(node, "targets", None)
     fallback = getattr(node, "fallback", None)
-    return f"{node.definition_hash}:{type(node).__name__}:{node.outputs!r}:{targets!r}:{fallback!r}"
+    # A multi-target gate validates and stores its decision differently (a list of targets)
+    multi_target = getattr(node, "multi_target", None)
+    return f"{node.definition_hash}:{type(node).__name__}:{node.outputs!r}:{targets!r}:{fallback!r}:{multi_target!r}"
 
 
 def check_cache(
